@@ -71,9 +71,9 @@ public:
     /// Skip over a scanline.
     void skip( byte_t*, int )
     {
-        this->_io_dev.seek( static_cast<long>( this->_scanline_length )
-                          , SEEK_CUR
-                          );
+        // nothing to do: read() addresses every scanline by its absolute offset.
+        // (A relative seek from here can point beyond the end of the file - the rows are
+        // stored bottom-up - which puts a std::istream into the fail state.)
     }
 
     iterator_t begin() { return iterator_t( *this ); }
